@@ -10,6 +10,12 @@ CLAIMED = {
    text=('Theorem (F x).take D\' = F (x.take D\') for every L0 kernel that is a build/convolution recurrence (28 theorems, any field): arithmetic, exp, log, sqrt, powers, '
          'trigonometric/hyperbolic pairs, arcsin/arccos/arctan, black/white family and its compositions. Fold-based kernels (Faa-di-Bruno family, dawsn) and matrix kernels are covered by the '
          'implementation-level truncation oracle over 79 registered public operations, not by a theorem yet (partial).')),
+ 'C02': dict(
+   technique='Lean 4 theorems (Cauchy product in K[[X]], ring laws of R[t]/(t^D), dtype table by case analysis) + differential correspondence',
+   text=('Theorems for all D and all series over any field: mulS is the Cauchy product, divS the unique solution of z*y=x, commutativity/associativity/distributivity, (x/y)*y=x; over R the '
+         'coefficients are the Taylor coefficients of the product/quotient curve; dtype calculus (complex in => complex out for every operator x operand kind x order) as a finite table. '
+         'Broadcasting and operand-kind dispatch are modelled (L2) and tied by the correspondence run over all kinds/orders/shape pairs/in-place and power forms; the lifting lemma from series to '
+         'broadcast arrays is not yet a theorem (partial).')),
 }
 _todo = 'check under construction in this session: Lean model/theorems and correspondence not committed yet'
 NOT_APPLICABLE = {('C%02d' % i): _todo for i in range(1, 18)}
